@@ -110,6 +110,12 @@ CHECKS = {
         design="§7 C06",
         note="Hypotheses: non-degeneracy (id+alpha <> 0, batch divisor <> 1, X,Y <> 0, non-zero challenge). The issuer publishes no batch coefficients, so public updates are exercised for single-identifier revocations.",
         technique="Coq theorems (field tactic: completeness / invalid-witness / extractor of the membership proof, composed with the registry and update theorems) + differential correspondence of presentation verdicts over issuer histories"),
+    "C10": dict(
+        text="Theorems: acceptance of an encryption statement implies that its hashed Schnorr commitments are computed with the response of the referenced signed claim and, when the statement requests scalar decryption, that the proof carries the decryptable part; completeness of the sub-protocol; group decryption c2 - dk*c1 = gm*m for the ElGamal pair the transcripts open to; view/extraction lemmas in C07/C17. The byte decomposition (per-byte proofs, 8-bit bulletproofs, weighted sum) is not modelled in Coq. "
+             "Correspondence: external prover (honest, substitute plaintext with shared / independent nonce, omitted proof, altered response, omitted decryptable part) against model and implementation; decrypt / decrypt_scalar / decrypt_and_verify of Presentation::create output for every claim type and value class with standard and hashed generators.",
+        design="§7 C10",
+        note="bulletproofs soundness, AES-GCM idealised. Known finding: decrypt_scalar works only for the standard generator. Deviations inside the byte decomposition (non-canonical m+r decomposition) need a bulletproof prover in the harness and are not exercised.",
+        technique="Coq theorems about the verifier model (linkage, required decryptable part, group decryption) + differential correspondence + decryption checks on honest presentations"),
 }
 
 PLANNED = {
